@@ -420,6 +420,21 @@ func genWire(tier string) []proto.Item {
 			}
 		}
 	}
+	// a UDP destination that rejects the probe with a destination-unreachable code other than "port" (a host firewall):
+	// its replies are accepted as the destination's on every schedule and latency order, and the list ends at the lowest
+	for _, v := range proto.Variants {
+		vi := proto.Info(v)
+		if vi.Kind != "udp4" && vi.Kind != "udp6" {
+			continue
+		}
+		for _, form := range []string{"duHost", "duAdmin"} {
+			for _, lat := range [][2]int{{3000, 3000}, {95000, 3000}, {3000, 95000}} {
+				s := proto.Scn{Variant: v, First: 1, Last: 5, Dest: 3, IPIDBase: 700, EchoBase: 71, TimeoutMs: 300, DelayMs: 10, Bound: 1}
+				s.Hops = map[int]proto.HopSpec{3: {AtTarget: true, Form: form, DelayUs: lat[0]}, 4: {AtTarget: true, Form: form, DelayUs: lat[1]}, 5: {AtTarget: true, Form: form}}
+				items = append(items, proto.Item{Scn: s, Class: fmt.Sprintf("wire/%s/r1-5/destination-answers-%s", v, form), Note: map[string]string{"want_len": "3"}})
+			}
+		}
+	}
 	// a destination reply overrides a non-destination one for the same TTL: through the real drivers, on every schedule
 	for _, it := range c03.RouterThenDestination(700, 71) {
 		it.Class = "wire/" + it.Class
